@@ -70,6 +70,14 @@ def gen_cases(tier, seed):
                 comps.append(parts)
                 yield ("canonical-pair", parts)
                 yield ("canonical-pair+mark", parts + [0x0323])
+    # a second character from a supplementary plane whose low 16 bits equal those of a composing mark must not compose
+    seen = set()
+    for a, b in comps:
+        for plane in range(1, 17):
+            c2 = b + plane * 0x10000
+            if c2 < 0x110000 and assigned(c2) and (a, c2) not in seen:
+                seen.add((a, c2)); yield ("supplementary-second-with-same-low-16-bits", [a, c2])
+                if tier == "quick": break
     # random strings of starters and reordered combining marks of differing classes, incl. > 10 marks
     marks = [cp for cp in range(0x300, 0x370) if assigned(cp) and unicodedata.combining(chr(cp))] + [0x0591, 0x05B0, 0x064B, 0x0E48, 0x1DC0, 0x20D0, 0x302A]
     starters = [0x41, 0x61, 0x65, 0xC5, 0xE9, 0x1E0B, 0x3B1, 0x3A9, 0x1100, 0xAC00, 0x4E00, 0x1F600, 0x0F71, 0x0DD9, 0x0B47, 0x1D158]
